@@ -140,38 +140,38 @@ type HookEvent struct {
 
 // Case is one execution of the subject.
 type Case struct {
-	Root    string // case root: wd/, meta/ are created below it
-	Bin     string
-	Spec    *spec.Spec
-	Env     map[string]string
-	Behav   vproto.Behaviours
-	Soft    time.Duration // budget after which the hang classifier looks
-	Hard    time.Duration // watchdog
-	Wrap    []string      // command prefix (e.g. strace ...)
-	Mode    string        // subject mode, default "run"
-	Args    []string      // extra args for other modes
-	KeepWd  bool          // do not (re)create sources; re-run in place
-	RunNo   int           // run number inside the same root (separate meta files)
-	WdRel   string        // working directory relative to Root (default "wd")
-	KillWhenExists []string // SIGKILL the process group as soon as one of these absolute paths exists
-	KillAtTraceLine int   // > 0: SIGKILL the process group as soon as the command trace has this many lines (a logical instant)
+	Root            string // case root: wd/, meta/ are created below it
+	Bin             string
+	Spec            *spec.Spec
+	Env             map[string]string
+	Behav           vproto.Behaviours
+	Soft            time.Duration // budget after which the hang classifier looks
+	Hard            time.Duration // watchdog
+	Wrap            []string      // command prefix (e.g. strace ...)
+	Mode            string        // subject mode, default "run"
+	Args            []string      // extra args for other modes
+	KeepWd          bool          // do not (re)create sources; re-run in place
+	RunNo           int           // run number inside the same root (separate meta files)
+	WdRel           string        // working directory relative to Root (default "wd")
+	KillWhenExists  []string      // SIGKILL the process group as soon as one of these absolute paths exists
+	KillAtTraceLine int           // > 0: SIGKILL the process group as soon as the command trace has this many lines (a logical instant)
 }
 
 // Result is what was observed.
 type Result struct {
-	Exit      int    `json:"exit"`
-	Signal    string `json:"signal,omitempty"`
-	Returned  bool   `json:"returned"` // RUN-RETURNED marker seen
-	Ret       *RetRec `json:"ret,omitempty"`
-	Hang      string `json:"hang,omitempty"` // "" | deadlock:<why> | inconclusive:<why>
-	HangInfo  string `json:"hang_info,omitempty"`
-	WallMS    int64  `json:"wall_ms"`
-	Trace     []vproto.Event `json:"-"`
-	Events    []HookEvent    `json:"-"`
-	OutPath   string `json:"out_path"`
-	Wd        string `json:"wd"`
-	Meta      string `json:"meta"`
-	GoDeadlock bool  `json:"go_deadlock,omitempty"`
+	Exit       int            `json:"exit"`
+	Signal     string         `json:"signal,omitempty"`
+	Returned   bool           `json:"returned"` // RUN-RETURNED marker seen
+	Ret        *RetRec        `json:"ret,omitempty"`
+	Hang       string         `json:"hang,omitempty"` // "" | deadlock:<why> | inconclusive:<why>
+	HangInfo   string         `json:"hang_info,omitempty"`
+	WallMS     int64          `json:"wall_ms"`
+	Trace      []vproto.Event `json:"-"`
+	Events     []HookEvent    `json:"-"`
+	OutPath    string         `json:"out_path"`
+	Wd         string         `json:"wd"`
+	Meta       string         `json:"meta"`
+	GoDeadlock bool           `json:"go_deadlock,omitempty"`
 }
 
 // RetRec is the RUN-RETURNED record printed by the subject.
